@@ -386,3 +386,15 @@ func StrictResolution() []operationparser.Option {
 	return []operationparser.Option{operationparser.WithAnchorTimeValidator(rejectTime{&IntakeValidatorCalls}),
 		operationparser.WithAnchorOriginValidator(rejectOrigin{&IntakeValidatorCalls})}
 }
+
+// NewClientWithTrap returns a client serving v and, from trapGenesis on, a "trap" version whose parser refuses every
+// operation (operation size 1, no algorithms, no patch actions, refusing validators). Anchored operations are stamped with
+// the version they were batched under; code that looks the version up by ANCHORING TIME instead falls into the trap as
+// soon as an operation stamped with v's genesis time is anchored at or after trapGenesis.
+func NewClientWithTrap(v protocol.Version, trapGenesis uint64) *Client {
+	tp := v.Protocol()
+	tp.GenesisTime = trapGenesis
+	tp.MaxOperationSize, tp.MaxDeltaSize, tp.MaxOperationTimeDelta, tp.MaxOperationHashLength = 1, 1, 1, 1
+	tp.KeyAlgorithms, tp.SignatureAlgorithms, tp.Patches = []string{"none"}, []string{"none"}, []string{"none"}
+	return NewClient(v, NewVersion(tp, VersionOpts{ParserOpts: StrictResolution()}))
+}
